@@ -26,3 +26,8 @@ package state
 //@ pure
 //@ requires s != nil
 //@ ensures result != nil && fresh(result) && validBal(result) && decBal(result) == (&s.Balance).v
+
+//@ func NEOBalanceFromBytes
+//@ assumed
+//@ pure
+//@ ensures result1 == nil ==> result0 != nil && fresh(result0)
